@@ -207,3 +207,26 @@ PROPS["C19"] = {
     "technique": "Lean 4 proof (fold invariant + loop invariant, arbitrary choice function) + regenerated facts + differential correspondence",
     "design_ref": "DESIGN.md section 6 C19",
 }
+
+CLUSTER = ("cluster harness: real server.LeaderController / FollowerController objects of one shard in one process over an in-memory "
+           "ReplicationRpcProvider (Go channels for the replicate / snapshot streams, direct calls for Truncate); elections are scripted "
+           "the way the coordinator runs them (new term on every member, the responder with the best head becomes leader, role changes by "
+           "closing and re-creating the controller over the same WAL and Pebble directories)")
+
+PROPS["C06"] = {
+    "modules": ["OxiaVerif.Props.C06"],
+    "facts": ["processWriteSingleBatchCommit", "versionIdPersistedAfterApply", "leaderLiveUsesWrapperCallbackAndEntryArgs",
+              "followerApplyUsesWrapperCallbackAndEntryArgs", "leaderReplayUsesWrapperCallbackAndEntryArgs", "followerRestartRestoresNotificationsFlag",
+              "newTermSetsNotificationsFlag", "followerApplyResetsPooledEntry", "snapshotInstallReopensDatabase"],
+    "trusted_base": [KERNEL, EXTRACT, CORR, CLUSTER, DBTRUST,
+                     "the leader's timestamps (time.Now) are mapped to the model's per entry (read back from the commit-offset record of each write); Pebble checkpoints / snapshot chunking are exercised, not modelled (a snapshot install is 're-open the same store')"],
+    "assumptions": ["every entry of the log can be applied (no infrastructure error: known finding D-5 of C13 is excluded by the generator)",
+                    "the wall-clock garbage collection of old notification batches does not run during a script (retention 1 h)",
+                    "the routes are identified with one function by regenerated facts about the four call sites; the callback chain itself is M-Db's (C12/C15)"],
+    "rule": "cluster scripts: a 2-node cluster (RF 3) elected at term 1, a third node joined later through AddFollower (snapshot transfer of the leader's database); 10-40 write requests from the M-Db program generator (puts with expected versions, sessions, client ids, partition keys, sequence deltas, secondary indexes; deletes; range deletes; notifications on or off), interleaved with follower restarts, elections (with role changes and WAL replay on the new leader) and checkpoints. A checkpoint dumps the leader's whole key space, writes a marker entry and compares every follower's key space at the same commit offset (and at the marker's offset if it already applied it) with the leader's; the leader's dump is compared with M-Db's after the same requests (timestamps mapped per entry). Oracle: any difference between replicas at the same commit offset, a replica that does not reach the prefix, an election or join that fails.",
+    "level_text": "Machine-checked proof (Lean 4) on M-Db: after every successful write the persisted version counter equals the in-memory one, so re-opening the database (restart, role change, snapshot install) gives back exactly the running database (C06_restart_transparent); by induction over any interleaving of entry applications, restarts and snapshot installs the resulting database - records, versions, modification counts, timestamps, session ownership, index entries, sequence keys, notification batches, version counter - equals the one obtained by applying the entries in one go, hence any two replicas that applied the same entries agree (C06_any_split_same_state, C06_two_replicas_agree). That every route calls this one function with the entry's own offset and timestamp and the same callback chain, resets the pooled decode buffer, and restores the term's notifications flag after restart / new term / snapshot is tied by nine regenerated facts; the whole is run differentially against real controllers on all four routes.",
+    "level_note": "Trusted: Lean kernel; extractor rules for the call sites of ProcessWrite, NewFollowerController, NewTerm, handleSnapshot; cluster harness; Pebble. Assumed: entries are applicable; no notification trimming during a script. Fixed D-36 (snapshot install enabled notifications).",
+    "technique": "Lean 4 proof (restart transparency + induction over route interleavings on M-Db) + regenerated facts + differential correspondence on a real in-process cluster",
+    "design_ref": "DESIGN.md section 6 C06",
+}
+
